@@ -186,7 +186,7 @@ def _close(a, b, rel=1e-9, ab=1e-9):
     return abs(a - b) <= ab + rel * max(abs(a), abs(b))
 
 
-def check_pd(case):
+def check_pd(case, dof0_only=False):
     from pgmpy.estimators import CITests as T
 
     df = _frame(case)
@@ -194,9 +194,8 @@ def check_pd(case):
     rows = _rows(case)
     X, Y = case["X"], case["Y"]
     dfp = _frame(case, perm=case["perm"])
-    deferred = None  # failure classes already seen on the unchanged tree are reported only if nothing else fails in the case
     for Z in case["Zs"]:
-        for name, lam in LAMBDAS:
+        for name, lam in (LAMBDAS[:2] if dof0_only else LAMBDAS):
             stat, p, dof, defined = oracle_test(rows, X, Y, Z, lam)
             got = T.power_divergence(X, Y, list(Z), df, boolean=False, lambda_=name)
             if not (isinstance(got, tuple) and len(got) == 3):
@@ -219,11 +218,14 @@ def check_pd(case):
                     f = {"key": "power_divergence:dof0-pvalue" if (Z and math.isnan(float(g_p))) else "power_divergence:pvalue",
                          "what": f"{where}: X or Y constant in every stratum (statistic {g_stat}, dof 0): p-value {g_p}, expected 1"}
                     if f["key"].endswith("dof0-pvalue"):
-                        deferred = deferred or f
+                        if dof0_only:
+                            return {"key": "pvalue-nan", "what": f["what"]}
                     else:
                         return f
             elif not _close(g_p, p, rel=1e-7, ab=1e-10):
                 return {"key": "power_divergence:pvalue", "what": f"{where}: p {g_p}, chi2 survival function of ({stat}, {dof}) is {p}"}
+            if dof0_only:
+                continue
             if case["kind"] == "independent" and (case.get("all_indep") or Z in (["Z1", "zz2"], ["zz2", "W", "Z1"])) and dof:
                 if abs(float(g_stat)) > 1e-9 or abs(float(g_p) - 1) > 1e-9:
                     return {"key": "power_divergence:independent-table", "what": f"{where}: exactly independent strata give statistic {g_stat}, p {g_p}"}
@@ -252,6 +254,8 @@ def check_pd(case):
                     v = T.power_divergence(X, Y, list(Z), df, boolean=True, lambda_=name, significance_level=lvl)
                     if isinstance(v, tuple) or bool(v) != want:
                         return {"key": "power_divergence:verdict", "what": f"{where}: p={g_p} significance_level={lvl}: verdict {v!r}, expected {want}"}
+        if dof0_only:
+            continue
         # ---- default lambda and the named wrappers
         stat, p, dof, defined = oracle_test(rows, X, Y, Z, 2.0 / 3.0)
         got = T.power_divergence(X, Y, Z, df, boolean=False)
@@ -278,12 +282,27 @@ def check_pd(case):
             return {"key": "power_divergence:x-in-z-accepted", "what": f"Z={bad}"}
         except ValueError:
             pass
-    return deferred
+    return None
+
+
+def gen_dof0(tier, seed):
+    k = 0
+    for c in gen_pd(tier, seed):
+        if c["kind"] in ("sparse", "constant-in-stratum") and k < 60:
+            k += 1
+            yield c
+
+
+def check_dof0(case):
+    """X (or Y) constant in every stratum: statistic 0, dof 0 and - as for the unconditional test - p-value 1."""
+    return check_pd(case, dof0_only=True)
 
 
 def gen_unused(tier, seed):
+    k = 0
     for c in gen_pd(tier, seed):
-        if c["style"].startswith("category") and c["kind"] in ("random", "independent"):
+        if c["style"].startswith("category") and c["kind"] in ("random", "independent") and k < 40:
+            k += 1
             yield c
 
 
@@ -416,7 +435,9 @@ def _cframe(cols, perm=None):
     return pd.DataFrame({c: [v[i] for i in idx] for c, v in cols.items()}, index=idx)
 
 
-def check_pearsonr(case):
+def check_pearsonr(case, part="core"):
+    """part = "core": everything that does not depend on the intercept; part = "shift": comparison with the with-intercept
+    specification on uncentred data and invariance under shifts."""
     from pgmpy.estimators import CITests as T
 
     cols, X, Y = case["cols"], case["X"], case["Y"]
@@ -424,7 +445,6 @@ def check_pearsonr(case):
     snap = df.copy(deep=True)
     n = len(df)
     shift, scale = case["shift"], Fraction(case["scale"])
-    deferred = None  # the intercept defect (seen on the unchanged tree) is reported only if nothing else fails in the case
     for Z in case["Zs"]:
         if not _well_posed(cols, X, Y, Z):
             continue
@@ -434,15 +454,26 @@ def check_pearsonr(case):
             return {"key": "shape", "what": f"returned {got!r}"}
         r, p = float(got[0]), float(got[1])
         where = f"X={X} Y={Y} Z={Z} n={n}"
+        if part == "shift":
+            if not Z:
+                continue
+            if not _close(r, want[0], 1e-8, 1e-9):
+                wo = pearson_exact(residuals(cols[X], [cols[z] for z in Z], False), residuals(cols[Y], [cols[z] for z in Z], False))
+                return {"key": "shift-invariance",
+                        "what": f"{where}{'' if case['centered'] else ' (Z columns not centred)'}: got r={r}; correlation of the residuals of the "
+                                f"regressions WITH intercept is {want[0]} (without intercept: {wo})"}
+            for var in [X, Y] + list(Z):
+                sc = dict(cols)
+                sc[var] = [v + shift for v in cols[var]]
+                g2 = T.pearsonr(X, Y, list(Z), _cframe(sc), boolean=False)
+                if not _close(g2[0], r, 1e-7, 1e-8):
+                    return {"key": "shift-invariance", "what": f"{where}: r={r}, after adding {shift} to every value of {var}: r={g2[0]}"}
+            continue
         if not Z or case["centered"]:
             # without conditioning variables, or with exactly centred Z columns, regressions with and without intercept coincide
             if not (_close(r, want[0], 1e-8, 1e-9) and _close(p, want[1], 1e-6, 1e-10)):
                 return {"key": "unconditional" if not Z else "residual-correlation",
                         "what": f"{where}: got (r={r}, p={p}); Pearson correlation of the least-squares residuals is r={want[0]}, p={want[1]}"}
-        elif not _close(r, want[0], 1e-8, 1e-9):
-            deferred = deferred or {"key": "shift-invariance",
-                    "what": f"{where} (Z columns not centred): got r={r}; correlation of the residuals of the regressions WITH intercept is {want[0]} "
-                            f"(without intercept: {pearson_exact(residuals(cols[X], [cols[z] for z in Z], False), residuals(cols[Y], [cols[z] for z in Z], False))})"}
         # ---- metamorphic relations on the real code
         sw = T.pearsonr(Y, X, tuple(reversed(Z)), _cframe(cols, case["perm"]), boolean=False)
         if not (_close(sw[0], r, 1e-8, 1e-9) and _close(sw[1], p, 1e-6, 1e-10)):
@@ -453,14 +484,6 @@ def check_pearsonr(case):
             g2 = T.pearsonr(X, Y, list(Z), _cframe(sc), boolean=False)
             if not _close(g2[0], r, 1e-7, 1e-8):
                 return {"key": "scale-invariance", "what": f"{where}: r={r}, after multiplying {var} by {scale}: {g2[0]}"}
-        for var in [X, Y] + list(Z):
-            if not Z:
-                continue
-            sc = dict(cols)
-            sc[var] = [v + shift for v in cols[var]]
-            g2 = T.pearsonr(X, Y, list(Z), _cframe(sc), boolean=False)
-            if not _close(g2[0], r, 1e-7, 1e-8):
-                deferred = deferred if (deferred and deferred["key"] == "shift-invariance") else {"key": "shift-invariance", "what": f"{where}: r={r}, after adding {shift} to every value of {var}: r={g2[0]}"}
         if not Z:
             sc = dict(cols)
             sc[X] = [v + shift for v in cols[X]]
@@ -473,17 +496,26 @@ def check_pearsonr(case):
             lv.append(math.nextafter(p, 2.0))
         for lvl in lv:
             v = T.pearsonr(X, Y, list(Z), df, boolean=True, significance_level=lvl)
-            if v is not (p >= lvl) and bool(v) != (p >= lvl) or isinstance(v, tuple):
+            if isinstance(v, tuple) or bool(v) != (p >= lvl):
                 return {"key": "verdict", "what": f"{where}: p={p} level={lvl}: verdict {v!r}"}
     if not df.equals(snap):
         return {"key": "mutated-data", "what": "the data frame was modified"}
-    for bad in (3,):
-        try:
-            T.pearsonr(X, Y, bad, df)
-            return {"key": "non-iterable-z-accepted", "what": "Z=3"}
-        except ValueError:
-            pass
-    return deferred
+    try:
+        T.pearsonr(X, Y, 3, df)
+        return {"key": "non-iterable-z-accepted", "what": "Z=3"}
+    except ValueError:
+        pass
+    return None
+
+
+def check_pearsonr_shift(case):
+    return check_pearsonr(case, part="shift")
+
+
+def gen_pearson_shift(tier, seed):
+    for i, c in enumerate(gen_pearson(tier, seed)):
+        if i < 60:
+            yield c
 
 
 def groups(tier):
@@ -493,11 +525,19 @@ def groups(tier):
                     "int / negative int / str / categorical(str) / categorical(int) columns; Z in {[], 1, 2, 3 variables}; 9 lambda values "
                     "(6 names + 0.3, 2, -0.7) + default + 4 named wrappers; both boolean modes with 5-6 significance levels incl. p itself and "
                     "nextafter(p); relations: X/Y swap, row permutation, Z order/tuple. lambda<0 with a zero cell (statistic infinite or "
-                    "undefined in scipy) is only required not to give a finite number for lambda<=-1"),
+                    "undefined in scipy) is only required not to give a finite number for lambda<=-1. The p-value of conditional tests whose "
+                    "pooled dof is 0 is checked in group dof0 only"),
+        Group("dof0", gen_dof0, check_dof0, lambda c: True, engine="E3",
+              bound="the first 60 sparse / constant-in-stratum frames of the previous group: pooled dof 0 must give p-value 1 (as the "
+                    "unconditional branch does), not nan"),
         Group("unused_category", gen_unused, check_unused_categories, lambda c: True, engine="E3",
-              bound="the categorical frames of the previous group with one extra, never observed level per column"),
-        Group("pearsonr", gen_pearson, check_pearsonr, lambda c: True, engine="E3",
-              bound="32 (400) seeded integer data sets n in {8,12,20,30}, |Z| in 0..3 (queries without full column rank are skipped); half of them "
-                    "with exactly centred Z columns (there the code must equal the with-intercept spec); shift (+3,-7,10,100) and positive "
-                    "rescale (2,1/4,8,1/2) of every variable; swap X/Y, reversed Z, permuted rows; verdict at 0.05, 0.5, p, nextafter(p)"),
+              bound="the first 40 categorical frames (random / independent) with one extra, never observed level per column"),
+        Group("pearsonr_core", gen_pearson, check_pearsonr, lambda c: True, engine="E3",
+              bound="32 (400) seeded integer data sets n in {8,12,20,30}, |Z| in 0..3 (queries without full column rank are skipped); r and p "
+                    "against the with-intercept residual correlation for Z=[] and for the half of the data sets whose Z columns are exactly "
+                    "centred (there regressions with and without intercept coincide); positive rescale (2,1/4,8,1/2) of every variable; swap "
+                    "X/Y, reversed Z, permuted rows; verdict at 0.05, 0.5, p, nextafter(p)"),
+        Group("pearsonr", gen_pearson_shift, check_pearsonr_shift, lambda c: True, engine="E3",
+              bound="the first 60 of the same data sets, |Z| >= 1: r against the with-intercept specification on all of them, and invariance "
+                    "under adding (+3,-7,10,100) to any one variable"),
     ]
